@@ -1016,7 +1016,9 @@ void BasicSolver::ParseOptionString(
     SolverOption *opt = FindOption(&name[0], true);
     if (!opt) {
       HandleUnknownOption(&name[0]);
-      continue;       // in case it does not throw
+      if (equal_sign)            // in case it does not throw:
+        s = SkipNonSpaces(s);    // its value is not another option
+      continue;
     }
 
     // If user asks the default/current value.
